@@ -352,6 +352,8 @@ class MQTTProtocol(MQTTBaseProtocol):
         '''
         if self._cleanStart:
             self._purgeSession(MQTTSessionCleared())
+            # the purge freed window slots: send what publish() queued behind them
+            self._refillPublish(dup=False)
         else:
             self._syncSession()
         if self.onMqttConnectionMade:
